@@ -62,6 +62,17 @@ CLAIMED = {
              "about the handlers; sample documents only; in-memory disk; CrossHair+z3 trusted",
         ref="DESIGN.md section 5 C09",
     ),
+    "C08": dict(
+        text="(RX, unbounded) the directive regexes as z3 regular languages over all ASCII strings: DEFINED balanced and complete, "
+             "PP_REGEX recognises every spelling of every conditional directive, PP_DEF, WORD covers identifiers. (Skeletons) every "
+             "program of a conditional grammar up to 6/7 lines and nesting 2/3 x all initial-definition subsets, and every pair of "
+             "consecutive groups: declarations indexed == active lines of a reference model, final macro table equal. (Macros) object- "
+             "and function-like macros with special-character bodies and nested-parenthesis arguments substituted character for "
+             "character. The reference model is validated against GNU cpp on the same generator on every run.",
+        note="initial definitions / leading productions / token indices are symbolic and forked by the solver, the remaining productions "
+             "are enumerated concretely inside each path (bounded enumeration); redefinition without #undef excluded; RX limited to ASCII",
+        ref="DESIGN.md section 5 C08", rx=True,
+    ),
 }
 
 NOT_APPLICABLE = {
